@@ -469,10 +469,172 @@ def shell_grid(chk):
                 func=fq, meta={"replay": {"what": "shell"}})
 
 
+def sector_map(chk):
+    """_find_degrees_for_radial_points / _generate_degree_from_radius for 1-4 sector boundaries (symbolic values), symbolic number of radii."""
+    eng = chk.eng
+    fq = f"{MOD}.AtomGrid._find_degrees_for_radial_points"
+    fq2 = f"{MOD}.AtomGrid._generate_degree_from_radius"
+    i0 = z3.Int("i0")
+    for nsec in (1, 2, 3, 4):
+        a = [z3.Real(f"a{q}") for q in range(nsec)]
+        d = [z3.Int(f"d{q}") for q in range(nsec + 1)]
+        rep = {"what": "sectors", "nsec": nsec}
+
+        def count(r, thr):
+            return sum((z3.If(r > x, 1, 0) for x in thr), z3.IntVal(0))
+
+        def sel(idx, vals):
+            r = vals[-1]
+            for q in range(len(vals) - 2, -1, -1):
+                r = z3.If(idx == q, vals[q], r)
+            return r
+
+        def thunk(eng_, a=a, d=d):
+            eng_.assume(z3.And(S >= 1, i0 >= 0, i0 < S))
+            rp = I.Arr((S,), lambda i: Rr(T.zi(i)), "real")
+            ra = I.Arr((len(a),), lambda q: M.select_const(q, [lambda v=v: v for v in a]), "real")
+            da = I.Arr((len(d),), lambda q: M.select_const(q, [lambda v=v: v for v in d]), "int")
+            out = call_static(eng_, "AtomGrid", "_find_degrees_for_radial_points", [rp, ra, da], {})
+            return out
+        outs = chk.explore(f"_find_degrees_for_radial_points/{nsec}-sectors", thunk, func=fq)
+        rets = [o for o in outs if o.kind == "return"]
+        chk.add(f"_find_degrees_for_radial_points/{nsec}-sectors/post/returns-on-every-path", [], z3.BoolVal(bool(rets) and len(rets) == len(outs)), func=fq, meta={"replay": rep})
+        for oi, o in enumerate(rets):
+            out = o.value
+            chk.add_from_path(f"_find_degrees_for_radial_points/{nsec}-sectors/path{oi}", o, func=fq, meta={"replay": rep})
+            # ascending boundaries a_0 < a_1 < ...: a radius strictly inside sector q gets d_q; exactly on a boundary either neighbour is
+            # admissible (the documentation is not consistent about the closed side, the property does not fix it)
+            asc = [a[q] < a[q + 1] for q in range(nsec - 1)]
+            r_ = Rr(i0)
+            res = T.zi(out.fn(i0))
+            interior = z3.And(*[z3.Implies(z3.And(r_ > a[q - 1] if q > 0 else True, r_ < a[q] if q < nsec else True), res == d[q]) for q in range(nsec + 1)])
+            boundary = z3.And(*[z3.Implies(r_ == a[q], z3.Or(res == d[q], res == d[q + 1])) for q in range(nsec)])
+            chk.add(f"_find_degrees_for_radial_points/{nsec}-sectors/post/radius-inside-a-sector-gets-that-sectors-degree", list(o.pc) + asc,
+                    z3.And(z3.BoolVal(out.ndim == 1), T.zi(out.shape[0]) == S, interior, boundary), func=fq, meta={"replay": rep})
+            chk.canary(f"_find_degrees_for_radial_points/{nsec}-sectors", list(o.pc))
+
+        # _generate_degree_from_radius: boundaries scaled by the radius, degrees matched to supported ones (C12 through its contract)
+        radius = z3.Real("radius")
+        seen = []
+
+        def match_contract(eng_, f, args, kwargs, seen=seen):
+            dreq = kwargs.get("degree", args[0] if args else None)
+            seen.append((dreq, kwargs.get("size", args[1] if len(args) > 1 else None), kwargs.get("method", args[2] if len(args) > 2 else None)))
+            dq = T.zi(M.unwrap(dreq))
+            eng_.assume(z3.And(AD(dq) >= dq, SZ(AD(dq)) >= 1))
+            return (AD(dq), SZ(AD(dq)))
+
+        def thunk2(eng_, a=a, d=d):
+            del seen[:]
+            eng_.callee_contracts["grid.angular.AngularGrid._get_degree_and_size"] = match_contract
+            try:
+                eng_.assume(z3.And(S >= 1, i0 >= 0, i0 < S))
+                return call_static(eng_, "AtomGrid", "_generate_degree_from_radius", [radial_grid(eng_), radius, list(a), list(d), "maxdet"], {}), list(seen)
+            finally:
+                eng_.callee_contracts.pop("grid.angular.AngularGrid._get_degree_and_size", None)
+        outs = chk.explore(f"_generate_degree_from_radius/{nsec}-sectors", thunk2, func=fq2)
+        rets = [o for o in outs if o.kind == "return"]
+        chk.add(f"_generate_degree_from_radius/{nsec}-sectors/post/returns-on-every-path", [], z3.BoolVal(bool(rets) and len(rets) == len(outs)), func=fq2, meta={"replay": rep})
+        for oi, o in enumerate(rets):
+            out, sn = o.value
+            chk.add_from_path(f"_generate_degree_from_radius/{nsec}-sectors/path{oi}", o, func=fq2, meta={"replay": rep})
+            asc = [a[q] * radius < a[q + 1] * radius for q in range(nsec - 1)]
+            r_ = Rr(i0)
+            res = T.zi(out.fn(i0))
+            interior = z3.And(*[z3.Implies(z3.And(r_ > a[q - 1] * radius if q > 0 else True, r_ < a[q] * radius if q < nsec else True),
+                                           z3.And(res == AD(d[q]), res >= d[q])) for q in range(nsec + 1)])
+            boundary = z3.And(*[z3.Implies(r_ == a[q] * radius, z3.Or(res == AD(d[q]), res == AD(d[q + 1]))) for q in range(nsec)])
+            chk.add(f"_generate_degree_from_radius/{nsec}-sectors/post/supported-degree-of-the-sector-with-boundaries-scaled-by-the-radius", list(o.pc) + asc,
+                    z3.And(T.zi(out.shape[0]) == S, interior, boundary), func=fq2, meta={"replay": rep})
+            chk.add(f"_generate_degree_from_radius/{nsec}-sectors/post/degrees-matched-by-degree-with-the-callers-method", [],
+                    z3.BoolVal(len(sn) == nsec + 1 and all(m == "maxdet" and sz is None for (_, sz, m) in sn)), func=fq2, meta={"replay": rep})
+
+    def t_bad(eng_):
+        eng_.assume(S >= 1)
+        return call_static(eng_, "AtomGrid", "_generate_degree_from_radius", [radial_grid(eng_), z3.Real("radius"), [z3.Real("a0")], [z3.Int("d0")], "lebedev"], {})
+    outs = chk.explore("_generate_degree_from_radius/mismatch", t_bad, func=fq2)
+    chk.add("_generate_degree_from_radius/raises/degree-list-not-one-longer-than-boundaries", [],
+            z3.BoolVal(bool(outs) and all(o.kind == "raise" and o.exc == "ValueError" for o in outs)), func=fq2, meta={"replay": {"what": "sectors"}})
+
+
+def from_pruned(chk):
+    """from_pruned hands the sector degrees, centre, seed and method to the constructor (both through their contracts)."""
+    eng = chk.eng
+    fq = f"{MOD}.AtomGrid.from_pruned"
+    DR = z3.Function("degree_from_radius", IS, IS)
+    radius = z3.Real("radius")
+    calls = {"deg": [], "init": []}
+
+    def deg_contract(eng_, f, args, kwargs):
+        calls["deg"].append((args, dict(kwargs)))
+        return I.Arr((S,), lambda i: DR(T.zi(i)), "int")
+
+    def init_contract(eng_, f, args, kwargs):
+        calls["init"].append((args, dict(kwargs)))
+        o = I.Obj(f)
+        o.fields["_marker"] = len(calls["init"])
+        return o
+
+    def thunk(eng_):
+        calls["deg"].clear()
+        calls["init"].clear()
+        eng_.callee_contracts[f"{MOD}.AtomGrid._generate_degree_from_radius"] = deg_contract
+        eng_.callee_contracts[f"{MOD}.AtomGrid"] = init_contract
+        try:
+            eng_.assume(z3.And(S >= 1, rot >= 0))
+            eng_.assume(NONNEG_R)
+            rg = radial_grid(eng_)
+            cls = eng_.get_class(MOD, "AtomGrid")
+            fr = I.Frame(eng_, cls.module, I.Env(), cls, None, "harness")
+            a, d = [z3.Real("a0"), z3.Real("a1")], [z3.Int("d0"), z3.Int("d1"), z3.Int("d2")]
+            g = eng_.call(fr.getattr(cls, "from_pruned"), [rg, radius, a, d], {"center": centre_arr(), "rotate": rot, "method": "maxdet"})
+            return g, rg, a, d, list(calls["deg"]), list(calls["init"])
+        finally:
+            eng_.callee_contracts.pop(f"{MOD}.AtomGrid._generate_degree_from_radius", None)
+            eng_.callee_contracts.pop(f"{MOD}.AtomGrid", None)
+    outs = chk.explore("from_pruned", thunk, func=fq)
+    rets = [o for o in outs if o.kind == "return"]
+    chk.add("from_pruned/post/returns-on-every-path", [], z3.BoolVal(bool(rets) and len(rets) == len(outs)), func=fq,
+            meta={"replay": {"what": "pruned"}, "paths": str([(o.kind, o.exc, o.note) for o in outs])})
+    k1 = z3.Int("k1")
+    for oi, o in enumerate(rets):
+        g, rg, a, d, cd, ci = o.value
+        okd = len(cd) == 1 and len(cd[0][0]) >= 4 and cd[0][0][0] is rg and T.is_sym(cd[0][0][1]) and cd[0][0][1].eq(radius) and list(cd[0][0][2]) == a \
+            and list(cd[0][0][3]) == d and (cd[0][0][4] if len(cd[0][0]) > 4 else cd[0][1].get("method")) == "maxdet"
+        chk.add("from_pruned/post/sector-degrees-computed-from-the-callers-arguments", [], z3.BoolVal(bool(okd)), func=fq, meta={"replay": {"what": "pruned"}})
+        oki = len(ci) == 1 and ci[0][0] and ci[0][0][0] is rg and ci[0][1].get("method") == "maxdet" and T.is_sym(ci[0][1].get("rotate")) and ci[0][1]["rotate"].eq(rot)
+        chk.add("from_pruned/post/constructor-gets-grid-seed-method", [], z3.BoolVal(bool(oki)), func=fq, meta={"replay": {"what": "pruned"}})
+        if oki:
+            dg = ci[0][1].get("degrees", ci[0][0][1] if len(ci[0][0]) > 1 else None)
+            c = ci[0][1].get("center")
+            good = isinstance(dg, I.Arr) and isinstance(c, I.Arr)
+            chk.add("from_pruned/post/constructor-gets-the-sector-degrees-and-the-centre", list(o.pc) + [k1 >= 0, k1 < S],
+                    z3.And(T.zi(dg.fn(k1)) == DR(k1), *[T.zr(c.fn(x)) == ctr[x] for x in range(3)]) if good else z3.BoolVal(False), func=fq, meta={"replay": {"what": "pruned"}})
+            chk.add("from_pruned/post/returns-the-constructed-grid", [], z3.BoolVal(isinstance(g, I.Obj) and g.fields.get("_marker") == 1), func=fq, meta={"replay": {"what": "pruned"}})
+
+
+def rotation_keeps_radii(chk):
+    """|v @ Q|^2 = |v|^2 for a matrix with orthonormal rows (Q Q^T = 1): polynomial identity + substitution of the orthogonality relations."""
+    v = z3.Reals("v0 v1 v2")
+    Q = [[z3.Real(f"q{a}{b}") for b in range(3)] for a in range(3)]
+    G = [[sum((Q[a][c] * Q[b][c] for c in range(3)), z3.RealVal(0)) for b in range(3)] for a in range(3)]
+    lhs = sum(((sum((v[a] * Q[a][c] for a in range(3)), z3.RealVal(0))) * (sum((v[a] * Q[a][c] for a in range(3)), z3.RealVal(0))) for c in range(3)), z3.RealVal(0))
+    mid = sum((v[a] * v[b] * G[a][b] for a in range(3) for b in range(3)), z3.RealVal(0))
+    fq = FQ_GEN
+    chk.add("rotation/lemma/norm-of-the-image-is-the-quadratic-form-of-the-gram-matrix", [], lhs == mid, kind="lemma", func=fq, meta={"replay": {"what": "rotation"}})
+    g = [[z3.Real(f"g{a}{b}") for b in range(3)] for a in range(3)]
+    orth = [g[a][b] == (1 if a == b else 0) for a in range(3) for b in range(3)]
+    chk.add("rotation/lemma/orthonormal-rows-give-the-same-radius", orth, sum((v[a] * v[b] * g[a][b] for a in range(3) for b in range(3)), z3.RealVal(0)) == sum((x * x for x in v), z3.RealVal(0)),
+            kind="lemma", func=fq, meta={"replay": {"what": "rotation"}})
+
+
 def build(chk):
     generate_atomic_grid(chk)
     constructor(chk)
     shell_grid(chk)
+    sector_map(chk)
+    from_pruned(chk)
+    rotation_keeps_radii(chk)
 
 
 def main(tier="quick", seed=0, bounded=True, proof=True):
